@@ -70,9 +70,13 @@ class Unit:
         for h in j["hir"]:
             self.hir.setdefault(h["key"], h)
         self.bodies = collections.OrderedDict()
+        self.const_bodies = {}          # MIR of const items (compile-time evaluated; never part of the run-time rules)
         seen = collections.Counter()
         for b in j["bodies"]:
             k = b["key"]
+            if b.get("const_item"):
+                self.const_bodies[k] = Body(self, b, k)
+                continue
             seen[k] += 1
             if seen[k] > 1:
                 k = "%s#%d" % (k, seen[k])
@@ -90,8 +94,11 @@ class Program:
             self.units.append(Unit(p))
         self.bodies = collections.OrderedDict()
         self.unit_by_name = {u.name: u for u in self.units}
+        self.const_bodies = {}
         for u in self.units:
             u.prog = self
+            for k, b in u.const_bodies.items():
+                self.const_bodies.setdefault(k, b)
         self._opaque = None
         for u in self.units:
             for k, b in u.bodies.items():
